@@ -112,4 +112,11 @@ theorem withCV_setV (t : CType) (h : (cvOf t).v = true) : withCV t ⟨(cvOf t).c
     cases hq : cvOf t with | mk c v => simp_all
   rw [this, withCV_cvOf]
 
+/-- the value is representable in `intmax_t` -/
+def fits (x : Int) : Bool := imax.inR x
+
+theorem ck_of_fits {x : Int} (h : fits x = true) : ck x = .ok x := by
+  unfold ck C14.arith; simp [imax, fits] at *; simp [h]
+
+
 end Tetl.C15
